@@ -231,6 +231,45 @@ func (c *Ctx) c19Scripts(n int) {
 			}
 			return rets[0]
 		}))
+		// a native that re-enters the VM through the handle it was given (a different callee, different
+		// arguments, both Call and Func) and reads its own arguments again afterwards
+		var reBad []string
+		deepFn := func() (goat.Value, bool) {
+			fv := vm.Get("main.deep")
+			return fv, !fv.IsNil()
+		}
+		reenter := func(v *goat.VM, args []goat.Value, extra []goat.Value) int {
+			all := append(append([]goat.Value{}, args...), extra...)
+			var before []int
+			for _, a := range all {
+				before = append(before, a.Int())
+			}
+			rets, err := v.Call("main.twoRes", 2, goat.Int(100), goat.Int(200))
+			if err != nil || len(rets) != 2 || rets[0].Int() != 200 || rets[1].Int() != 100 {
+				reBad = append(reBad, fmt.Sprintf("nested Call twoRes(100,200): %s", c19Show(rets, err)))
+			}
+			if fv, ok := deepFn(); ok {
+				if r2, err := v.Func(fv, 1, goat.Int(3)); err != nil || len(r2) != 1 || r2[0].Int() != 6 {
+					reBad = append(reBad, fmt.Sprintf("nested Func deep(3): %s", c19Show(r2, err)))
+				}
+			}
+			var after []int
+			for _, a := range append(append([]goat.Value{}, args...), extra...) {
+				after = append(after, a.Int())
+			}
+			if fmt.Sprint(before) != fmt.Sprint(after) {
+				reBad = append(reBad, fmt.Sprintf("arguments changed across the nested call: before %v after %v", before, after))
+			}
+			return c19Weigh(after)
+		}
+		vm.Set("main.reent", goat.NewFunc(3, 1, func(v *goat.VM, args []goat.Value) goat.Value { return goat.Int(reenter(v, args, nil)) }))
+		vm.Set("main.reent2", goat.NewFunc(2, 2, func(v *goat.VM, args []goat.Value) []goat.Value {
+			w := reenter(v, args, nil)
+			return []goat.Value{goat.Int(w), goat.Int(w + 1)}
+		}))
+		vm.Set("main.reentv", goat.NewFunc(1, 1, func(v *goat.VM, args []goat.Value, vargs ...goat.Value) []goat.Value {
+			return []goat.Value{goat.Int(reenter(v, args, vargs))}
+		}))
 		var args []int
 		var argS []string
 		for i := 0; i < argc; i++ {
@@ -255,6 +294,10 @@ func (c *Ctx) c19Scripts(n int) {
 		if r.Bool() {
 			vcall = "vnat(7, []int{" + strings.Join(exS, ", ") + "}...)"
 		}
+		var ra []int
+		for i := 0; i < 7; i++ {
+			ra = append(ra, 1+r.Intn(60))
+		}
 		src := fmt.Sprintf(`func deep(n int) int {
 	if n > 3 {
 		xs := []int{1}
@@ -273,9 +316,13 @@ func main() {
 	println(k[0], len(k))
 	println(%s)
 	println(relay(2))
+	println(reent(%d, %d, %d))
+	p, q := reent2(%d, reent(1, %d, 3))
+	println(p, q)
+	println(reentv(%d, %d, 9) + reentv(4))
 }
 main()
-`, strings.Join(lhs, ", "), al, strings.Join(lhs, ", "), al, al, vcall)
+`, strings.Join(lhs, ", "), al, strings.Join(lhs, ", "), al, al, vcall, ra[0], ra[1], ra[2], ra[3], ra[4], ra[5], ra[6])
 		_, err := vm.Eval(fstest.MapFS{}, "main", src)
 		w := c19Weigh(args)
 		var want []string
@@ -284,13 +331,23 @@ main()
 			rs = append(rs, fmt.Sprint((j+1)*1000+w))
 		}
 		want = append(want, strings.Join(rs, " "), fmt.Sprint(10+(1000+w)*2-1), fmt.Sprint(1000+w, 2),
-			fmt.Sprint(1000+c19Weigh(append([]int{7}, ex...))), "4")
+			fmt.Sprint(1000+c19Weigh(append([]int{7}, ex...))), "4",
+			fmt.Sprint(c19Weigh(ra[0:3])),
+			fmt.Sprint(c19Weigh([]int{ra[3], c19Weigh([]int{1, ra[4], 3})}), c19Weigh([]int{ra[3], c19Weigh([]int{1, ra[4], 3})})+1),
+			fmt.Sprint(c19Weigh([]int{ra[5], ra[6], 9})+c19Weigh([]int{4})))
 		c.Rep.Oracle["script-native"]++
 		c.Rep.Seen(src, argc > 1)
 		got := strings.TrimSpace(out.String())
 		wantSeen := fmt.Sprint([][]int{args, args, args, append([]int{7}, ex...)})
 		if argc == 0 {
 			wantSeen = fmt.Sprint([][]int{nil, nil, nil, append([]int{7}, ex...)})
+		}
+		// host -> native -> script as well
+		if rets, err := vm.Call("main.reent", 1, goat.Int(6), goat.Int(7), goat.Int(8)); err != nil || len(rets) != 1 || rets[0].Int() != c19Weigh([]int{6, 7, 8}) {
+			reBad = append(reBad, "host Call reent(6,7,8): "+c19Show(rets, err))
+		}
+		if len(reBad) > 0 {
+			c.Rep.Violate(Violation{Kind: "oracle", Cut: "script-native", Input: src, Impl: strings.Join(reBad, "; "), Oracle: "a native that re-enters the VM keeps its arguments and the nested calls give twoRes(100,200) = 200 100, deep(3) = 6"})
 		}
 		if err != nil || got != strings.Join(want, "\n") || fmt.Sprint(seen) != wantSeen {
 			c.Rep.Violate(Violation{Kind: "oracle", Cut: "script-native", Input: src, Impl: fmt.Sprintf("%s\nerr=%v\nseen=%v", got, err, seen), Oracle: strings.Join(want, "\n") + "\nseen=" + wantSeen})
